@@ -15,13 +15,13 @@ LEVEL_TEXT = ("Theorems (Coq): number of uniforms consumed by every sampler as a
               "checked by the correspondence (a pure-Python MT19937 computes the uniforms of every case) and by the consumption count/next raw output comparison.")
 LEVEL_NOTE = ("Coq 8.16.1; theorems over R use the standard library's real-number axioms, counting theorems are axiom-free; std::mt19937 + std::uniform_real_distribution are "
               "modelled as an explicit stream of canonical uniforms mapped by u*(b-a)+a (validated against libstdc++ on every case); Find_Root/Inv_Erf are modelled by copies of the "
-              "current code inside C18_Model.v; Sample_Gauss terminates the process when the canonical uniform is <= 2^-55 (Inv_Erf(-1)): probability 2^-55 per draw, see ASSUMPTIONS")
+              "current code inside C18_Model.v; a canonical uniform <= 2^-55 makes Sample_Gauss return mean - 10 sqrt(2) sigma (Inv_Erf(-1) = -10), see ASSUMPTIONS")
 TOL = (1e-12, 0.0)
 TRUSTED = ["pure-Python MT19937 / generate_canonical in checks/C18.py (validated against libstdc++: its next raw output after every case is compared with the real generator's)",
            "nm -C -u on Statistics.o (and Numerics.o, Special_Functions.o) for the link-time randomness check"]
 ASSUMPTIONS = ["distributional clauses are statistical tests on the implementation (fixed seeds, significance 1e-9), not theorems",
-               "Sample_Gauss/Sample_Metropolis exit through Inv_Erf when a canonical uniform <= 2^-55 is drawn (quantile of 0 is -infinity); modelled and reproduced with a crafted generator state, "
-               "treated as outside the support of the stream (u in (0,1)) in the containment theorems",
+               "a canonical uniform <= 2^-55 (2u-1 rounds to -1) makes Sample_Gauss return mean - 10 sqrt(2) sigma (Inv_Erf(-1) = -10 since the repair; it used to exit); modelled, proved "
+               "(C18_sample_gauss_at_zero) and reproduced with a crafted generator state",
                "thinning = 0 does not divide by zero in the current code (i_max = burn_in, so `i >= burn_in` is never true): it returns no samples; outside the quantifier"]
 ALPHA = 1e-9
 ZCRIT = 6.5     # two-sided normal tail 8e-11 <= 1e-9
@@ -537,12 +537,13 @@ def replay_seq(us, ops, v):
         elif name == "gauss":
             mu, sg = o[1], o[2]; u = us[k]; k += 1
             p = 2.0 * u - 1.0
-            if abs(p) >= 1.0:
-                if v is None: out.append(("gauss:exit-tiny-uniform", f"Sample_Gauss({mu},{sg}) terminated the process on the canonical uniform {u!r} (Inv_Erf(-1) exits; Inv_Erf(+1) returns 10)"))
-                return out, k, True
             r = take(1)
             if r is None: return out, None, False
-            if sg > 0 and math.isfinite(r[0]):
+            if abs(p) >= 1.0:
+                # a canonical uniform <= 2^-55: 2u-1 rounds to -1 and Inv_Erf(-1) = -10 (like Inv_Erf(+1) = 10)
+                exp = mu + SQ2 * sg * (10.0 * p)
+                if r[0] != exp and not (math.isnan(r[0]) and math.isnan(exp)): out.append(("gauss:tiny-uniform", f"Sample_Gauss({mu},{sg}) = {r[0]!r} on the canonical uniform {u!r}; Inv_Erf(-1) = -10 gives {exp!r}"))
+            elif sg > 0 and math.isfinite(r[0]):
                 e = math.erf((r[0] - mu) / (SQ2 * sg))
                 # Inv_Erf: bracket narrower than 1e-4 around the root of erf(x) = p; |erf'| <= 2/sqrt(pi); + rounding of mu + sqrt2*sigma*x
                 if abs(e - p) > 1.13e-4 + 1e-9 + 4e-16 * abs(mu) / sg: out.append(("gauss:quantile", f"Sample_Gauss({mu},{sg}) = {r[0]!r}: erf of the standardised value {e!r} is not the uniform's 2u-1 = {p!r} within Inv_Erf's accuracy"))
@@ -614,14 +615,10 @@ def replay_seq(us, ops, v):
             if len(dom) not in ((0, 4) if d2 else (0, 2)): return out, k, True
             im = imax32(sample, thin, burn); need = (2 + 3 * im) if d2 else (1 + 2 * im)
             if k + need > len(us): return out, None, False
-            # a canonical uniform <= 2^-55 makes Inv_Erf exit: the candidate draws are at known stream positions
             gpos = []
             if not dom: gpos += [k, k + 1] if d2 else [k]
             base = k + (2 if d2 else 1)
             for i in range(im): gpos += [base + 3 * i, base + 3 * i + 1] if d2 else [base + 2 * i]
-            if any(abs(2.0 * us[j] - 1.0) >= 1.0 for j in gpos):
-                if v is None: out.append((name + ":exit-tiny-uniform", f"{name} terminated the process: a Gaussian draw met a canonical uniform <= 2^-55 (Inv_Erf(-1) exits)"))
-                return out, None, True
             k += need
             r = take(1)
             if r is None: return out, None, False
@@ -660,7 +657,7 @@ def predicates(c, io):
     if exited:
         if not expects_exit and k is not None and not viol: out.append((names + ":exit", "the sequence terminated the process although no guard applies on the uniforms drawn"))
         return out
-    if expects_exit: out.append((names + ":guard", "on the uniforms of the case a guard terminates the process (rejection guards, domain size, or Inv_Erf on a canonical uniform <= 2^-55 at a Gaussian draw)"
+    if expects_exit: out.append((names + ":guard", "on the uniforms of the case a guard terminates the process (rejection guards, domain size)"
                                 + (f" after {k} uniforms" if k is not None else "") + "; the implementation returned"))
     cons, det, nxt = v[-3], v[-2], v[-1]
     if det != 1: out.append((names + ":determinism", "two runs from equal generator states differ in output or in the state left behind"))
